@@ -90,7 +90,8 @@ def state_key(steps) -> list:
 class SessionProperty:
     engine = "session"
 
-    def __init__(self, pid: str, *, profile="edit", scoped_bias=0.15, fail=None, quick_runs=30000, thorough_runs=600000):
+    def __init__(self, pid: str, *, profile="edit", scoped_bias=0.15, fail=None, quick_runs=30000, thorough_runs=600000, multiline_boost=False):
+        self.multiline_boost = multiline_boost
         self.pid = pid
         self.profile = profile
         self.scoped_bias = scoped_bias
@@ -98,7 +99,8 @@ class SessionProperty:
         self.runs = {"quick": quick_runs, "thorough": thorough_runs}
 
     def generate(self, seed: int, tier: str) -> dict:
-        return gen_session_case(self.pid, seed, tier, profile=self.profile, scoped_bias=self.scoped_bias, fail=self.fail)
+        return gen_session_case(self.pid, seed, tier, profile=self.profile, scoped_bias=self.scoped_bias, fail=self.fail,
+                                multiline_boost=self.multiline_boost)
 
     def oracles(self, case, steps) -> list[Violation]:
         raise NotImplementedError
@@ -281,7 +283,7 @@ from . import c15, clisim, damage, fsworld, laws, mapping, registry  # noqa: E40
 PROPERTIES: dict = {
     "C04": C04("C04", scoped_bias=0.2, fail=False),
     "C05": C05("C05", scoped_bias=0.2, fail=False),
-    "C06": C06("C06", scoped_bias=0.2, fail=False),
+    "C06": C06("C06", scoped_bias=0.2, fail=False, multiline_boost=True),
     "C08": C08("C08", scoped_bias=0.2, fail=True),
     "C10": registry.RegistryProperty(),
     "C11": C11("C11"),
